@@ -115,7 +115,8 @@ def headersIter (a : ANode) (script : List DAAns) : ANode × List SW × List Sub
       let (a', ws, calls, all) := submitLoop false maxSubmitAttempts a items script [] []
       (a', ws, calls, if all then .done else .incomplete)
 
-/-- one tick of `DataSubmissionLoop` (`createSignedDataToSubmit` skips empty data) -/
+/-- one tick of `DataSubmissionLoop` (`createSignedDataToSubmit` skips empty data; when nothing is left it advances the
+watermark over the — all empty — pending blocks) -/
 def dataIter (a : ANode) (script : List DAAns) : ANode × List SW × List SubmitCall × IterOut :=
   if a.n.store.height = a.n.dataWm then (a, [], [], .skipped)
   else if a.n.dataWm > a.n.store.height then (a, [], [], .fetchErr)
@@ -124,7 +125,11 @@ def dataIter (a : ANode) (script : List DAAns) : ANode × List SW × List Submit
     | some bs =>
       let items := (bs.filter fun b => !b.data.txs.isEmpty).map fun b =>
         ({ height := (b.data.metadata.map (·.height)).getD 0, key := b.data.daCommitment } : Item)
-      if items.isEmpty then (a, [], [], .skipped)
+      if items.isEmpty then
+        -- every pending block is empty: nothing to submit; the watermark moves past them (to the height the last
+        -- pending block carries in its data metadata)
+        let (a', w) := raiseWm a true ((bs.getLast?.map fun b => (b.data.metadata.map (·.height)).getD 0).getD 0)
+        (a', w, [], .skipped)
       else
         let (a', ws, calls, all) := submitLoop true maxSubmitAttempts a items script [] []
         (a', ws, calls, if all then .done else .incomplete)
